@@ -460,6 +460,11 @@ def oracle(case, result):
         for h, i in enumerate(hn):
             o = states[i][1]
             obs[h] = None if o is None else o[2]
+        # deliv[h] is True when the stream certainly holds a DELIVERED batch in this interval (possibly
+        # without elements), as opposed to "nothing was delivered" (source exhausted without default, no
+        # new file, slice out of range).  Derived from the history alone.  count() of a delivered batch
+        # must be [n] also for n = 0; only for an interval without any batch the reading accepts [].
+        deliv = {}
         for h, call in enumerate(prog):
             op = call[0]
             if op == QUEUE:
@@ -473,6 +478,7 @@ def oracle(case, result):
                 else:
                     want = [x for b in batches[p:] for x in b]
                     qpos[h] = len(batches)
+                deliv[h] = p < len(batches) or default is not None
                 if obs[h] is None or not _multiset_eq(obs[h], want):
                     return ('queue:delivery', f'{where}: queue stream (call {h}) delivered {obs[h]!r}, expected {want!r}')
                 continue
@@ -481,12 +487,24 @@ def oracle(case, result):
                 new = [(nm, lines) for nm, lines in ls if nm not in seen[h]]
                 seen[h] |= {nm for nm, _ in new}
                 want = [l for _, lines in new for l in lines]
+                deliv[h] = bool(new)
                 if obs[h] is None or not _multiset_eq(obs[h], want):
                     return ('file:delivery', f'{where}: file stream (call {h}) delivered {obs[h]!r}, expected {want!r}')
                 continue
             ins = [obs[call[1]]]
+            din = [deliv.get(call[1], False)]
             if op in (UNION, COGROUPED, TRANSFORMWITH):
                 ins.append(obs[call[2]])
+                din.append(deliv.get(call[2], False))
+            # a delivered input gives a delivered output (union: either side); everything else: unknown
+            if op == SLICE:
+                deliv[h] = din[0] and call[2] <= t <= call[3]
+            elif op == UNION or (op == TRANSFORMWITH and call[3] == 0):
+                deliv[h] = any(din)
+            elif op == FOREACH:
+                deliv[h] = False
+            else:
+                deliv[h] = all(din)
             if any(x is None for x in ins):
                 continue
             if op == FOREACH:
@@ -504,8 +522,9 @@ def oracle(case, result):
                 continue
             if obs[h] is None:
                 return (f'op:{OPNAMES[op]}', f'{where}: call {h} produced no RDD')
-            if op == COUNT and not ins[0] and obs[h] == []:
-                continue   # reading (DESIGN): count of an interval without a batch is an empty RDD
+            if op == COUNT and not ins[0] and obs[h] == [] and not din[0]:
+                continue   # reading (DESIGN): count of an interval WITHOUT ANY batch may be an empty RDD;
+                #            a delivered batch without elements must count [0]
             if not _multiset_eq(obs[h], want):
                 name = CGOPS[call[3]] if op == COGROUPED else OPNAMES[op]
                 return (f'op:{name}', f'{where}: call {h} {name} on {ins!r} gave {obs[h]!r}, the RDD operation gives {want!r}')
@@ -523,7 +542,7 @@ def _elem(rng, ty):
 
 
 def _batch(rng, ty):
-    return [_elem(rng, ty) for _ in range(rng.choice([0, 1, 1, 2, 2, 3]))]
+    return [_elem(rng, ty) for _ in range(rng.choice([0, 0, 1, 1, 2, 2, 3]))]
 
 
 def _unary_choices(ty):
@@ -583,7 +602,7 @@ def gen_program(rng, max_calls=12, with_files=False, with_none=False):
         else:
             ty = rng.choice([I, I, KI])
             nb = rng.choice([0, 1, 2, 3, 4, 6, 8])
-            default = None if rng.random() < 0.6 else _batch(rng, ty)
+            default = None if rng.random() < 0.55 else ([] if rng.random() < 0.25 else _batch(rng, ty))
             prog.append((QUEUE, [_batch(rng, ty) for _ in range(nb)], rng.random() < 0.75, default))
             types.append(ty)
         depth.append(0)
@@ -677,18 +696,19 @@ def gen_case(rng, with_files=False, with_none=False):
 
 
 SYS_UNARY = {
-    I: [(MAP, 1), (MAP, 4), (FLATMAP, 1), (FLATMAP, 3), (FILTER, 2), (COUNT,), (COUNTBYVALUE,), (REDUCE, 0), (REDUCE, 1),
+    I: [(FILTER, 1), (MAP, 1), (MAP, 4), (FLATMAP, 1), (FLATMAP, 3), (FILTER, 2), (COUNT,), (COUNTBYVALUE,), (REDUCE, 0), (REDUCE, 1),
         (TRANSFORM, 2), (TRANSFORM, 5), (REPARTITION, 2), (SLICE, 2, 3), (MAPPARTITIONS, 1), (MAPPARTITIONSWITHINDEX, 0)],
-    KI: [(MAPVALUES, 1), (FLATMAPVALUES, 1), (REDUCEBYKEY, 0), (GROUPBYKEY,), (COUNT,), (MAP, 6), (REPARTITION, 3),
+    KI: [(FILTER, 1), (MAPVALUES, 1), (FLATMAPVALUES, 1), (REDUCEBYKEY, 0), (GROUPBYKEY,), (COUNT,), (MAP, 6), (REPARTITION, 3),
          (FILTER, 4)],
 }
 SYS_BIN = [(UNION,), (COGROUPED, 0, None), (COGROUPED, 1, None), (COGROUPED, 1, 2), (COGROUPED, 2, None),
            (COGROUPED, 3, None), (COGROUPED, 4, None), (TRANSFORMWITH, 0)]
 SYS_HIST = [
-    # (batches I, batches KI, oneAtATime, default?, times)
+    # (oneAtATime, default: False = None | True = the first batch | 'empty' = [], times)
     (True, False, [1, 2, 3]),
     (True, True, [1, 2, 3, 4]),
     (False, True, [1, 2, 3]),
+    (True, 'empty', [1, 2, 3, 4]),
 ]
 B_I = [[1, 2, 2], [], [4]]
 B_KI = [[(0, 1), (1, 2), (0, 3)], [], [(2, 4)]]
@@ -705,7 +725,7 @@ def systematic():
     cases = []
     for one, dflt, times in SYS_HIST:
         for ty, bs in ((I, B_I), (KI, B_KI)):
-            src = (QUEUE, bs, one, (bs[0] if dflt else None))
+            src = (QUEUE, bs, one, ([] if dflt == 'empty' else bs[0] if dflt else None))
             hist = [(t, []) for t in times]
             # every op directly on the source, with an action on the source and on the result
             for spec in SYS_UNARY[ty]:
